@@ -1050,3 +1050,90 @@ def _(repo):
             and "lambda mse: jax.tree_util.tree_reduce(lambda x, y: x + y, jax.tree_util.tree_leaves(mse))" in csrc)
     out.append(f"Definition gen_sys_constraints_wiring : bool := {'true' if ok_c else 'false'}.")
     return "\n".join(out)
+
+
+# =============================================================== G_purity (C20)
+header("G_purity", ZHDR)
+PURITY_FILES = ["jinns/loss/_LossODE.py", "jinns/loss/_LossPDE.py", "jinns/loss/_loss_utils.py", "jinns/loss/_boundary_conditions.py",
+                "jinns/loss/_DynamicLossAbstract.py", "jinns/loss/_DynamicLoss.py", "jinns/loss/_operators.py",
+                "jinns/parameters/_params.py", "jinns/parameters/_derivative_keys.py", "jinns/data/_DataGenerators.py"]
+CTOR_TIME = {"__post_init__", "__init__", "generate_data", "generate_time_data", "set_loss_weights", "_check_and_set_rar_parameters"}
+MUTATORS = {"append", "extend", "insert", "pop", "popitem", "clear", "update", "setdefault", "remove", "sort", "reverse", "__setitem__", "__delitem__"}
+
+
+def _root(e):
+    while isinstance(e, (ast.Attribute, ast.Subscript)):
+        e = e.value
+    return e.id if isinstance(e, ast.Name) else None
+
+
+def _effects(fn):
+    """writes rooted at an argument (or at an alias of an argument-rooted location)"""
+    params = {a.arg for a in fn.args.args + fn.args.kwonlyargs} | ({fn.args.vararg.arg} if fn.args.vararg else set())
+    tainted = set(params)
+    fresh = set()
+    out = []
+    body_nodes = []
+
+    def collect(n, top):
+        if not top and isinstance(n, (ast.FunctionDef, ast.Lambda, ast.ClassDef)):
+            return
+        body_nodes.append(n)
+        for c in ast.iter_child_nodes(n):
+            collect(c, False)
+    collect(fn, True)
+    # aliases: local = <argument-rooted name / attribute / subscript chain> (no call)
+    changed = True
+    while changed:
+        changed = False
+        for n in body_nodes:
+            if isinstance(n, ast.Assign) and len(n.targets) == 1 and isinstance(n.targets[0], ast.Name):
+                v = n.value
+                if isinstance(v, (ast.Name, ast.Attribute, ast.Subscript)) and _root(v) in tainted and n.targets[0].id not in tainted:
+                    tainted.add(n.targets[0].id); changed = True
+            if isinstance(n, ast.Assign) and isinstance(n.targets[0], (ast.Tuple, ast.List)) and isinstance(n.value, (ast.Name, ast.Attribute, ast.Subscript)) and _root(n.value) in tainted:
+                for t in n.targets[0].elts:
+                    if isinstance(t, ast.Name) and t.id not in tainted:
+                        tainted.add(t.id); changed = True
+    for n in body_nodes:
+        tgts = []
+        if isinstance(n, ast.Assign):
+            for t in n.targets:
+                tgts += list(t.elts) if isinstance(t, (ast.Tuple, ast.List)) else [t]
+        elif isinstance(n, (ast.AugAssign, ast.AnnAssign)):
+            tgts = [n.target]
+        elif isinstance(n, ast.Delete):
+            tgts = n.targets
+        for t in tgts:
+            if isinstance(t, (ast.Attribute, ast.Subscript)) and _root(t) in tainted:
+                out.append((n.lineno, "store " + ast.unparse(t)))
+        if isinstance(n, ast.Call) and isinstance(n.func, ast.Attribute) and n.func.attr in MUTATORS and _root(n.func.value) in tainted:
+            out.append((n.lineno, "call " + ast.unparse(n.func)))
+        if isinstance(n, (ast.Global, ast.Nonlocal)):
+            out.append((n.lineno, "global " + ",".join(n.names)))
+    return out
+
+
+@anchor("G_purity", "effect_table")
+def _(repo):
+    rows = []
+    nfun = 0
+    for rel in PURITY_FILES:
+        mod = parse(repo, rel)
+        for n in ast.walk(mod):
+            if isinstance(n, ast.FunctionDef) and n.name not in CTOR_TIME:
+                nfun += 1
+                for line, what in _effects(n):
+                    rows.append((rel, n.name, line, what))
+        # module-level mutable state written from functions is reported by `global`; module-level caches:
+        for n in mod.body:
+            if isinstance(n, ast.Assign) and isinstance(n.value, (ast.Dict, ast.List, ast.Set)) and not all(isinstance(t, ast.Name) and t.id.isupper() or (isinstance(t, ast.Name) and t.id.startswith("_IMPLEMENTED")) for t in n.targets):
+                if rel.endswith("_rar.py"):
+                    continue
+                rows.append((rel, "<module>", n.lineno, "mutable module-level container " + ast.unparse(n.targets[0])))
+    body = "; ".join(f"({i}%nat, {r[2]}%nat)" for i, r in enumerate(rows))
+    comments = "\n".join(f"(* write {i}: {r[0]}:{r[2]} in {r[1]}: {r[3]} *)" for i, r in enumerate(rows))
+    return (f"(* functions analysed: {nfun} (every function of {len(PURITY_FILES)} modules except constructor-time helpers {sorted(CTOR_TIME)}) *)\n"
+            f"{comments}\nDefinition gen_functions_analysed : nat := {nfun}.\n"
+            f"(* (index, line) of every store / mutating call / global declaration rooted at an argument *)\n"
+            f"Definition gen_argument_writes : list (nat * nat) := [{body}].")
